@@ -467,12 +467,37 @@ def rule_norm_simultaneous(ctx: Ctx) -> RuleResult:
     return rr
 
 
+def rule_focus_writers(ctx: Ctx) -> RuleResult:
+    """The focus-changed callback is fired by the `focus` property setter and nowhere else; the stored index
+    `_focus` therefore has exactly two writers: __init__ (before a callback can be registered) and that setter.
+    Any other method that assigns `self._focus` moves the focus without notifying."""
+    p = ctx.p
+    rr = RuleResult("WRITER", "C16.9", "MonitoredFocusList._focus is written only by __init__ and the focus setter (the one place that fires the focus-changed callback)", floor=3)
+    cls = p.cls("urwid.widget.monitored_list.MonitoredFocusList")
+    setter = cls.props["focus"].setter if "focus" in cls.props else None
+    if setter is None:
+        raise AnalysisError("MonitoredFocusList.focus setter not found")
+    allowed = {id(setter)}
+    for fi in p.all_class_functions(cls):
+        if fi.cls is not cls:
+            continue
+        for n in fi.own_nodes():
+            if isinstance(n, (ast.Assign, ast.AugAssign)):
+                for t in n.targets if isinstance(n, ast.Assign) else [n.target]:
+                    if isinstance(t, ast.Attribute) and t.attr == "_focus" and isinstance(t.value, ast.Name) and t.value.id == fi.self_name:
+                        rr.inst(f"{short(fi)}:{norm(n, 40)}", True, {"writer": short(fi), "store": norm(n, 50)})
+                        if fi.name != "__init__" and id(fi) not in allowed:
+                            rr.add(finding("WRITER", fi, n, f"`{norm(n, 50)}` in {fi.name}() stores the focus index directly instead of assigning `self.focus`: the focus-changed callback is not fired although the focus index changes", construct=f"_focus written by {fi.name}"))
+    return rr
+
+
 def run(ctx: Ctx):
-    return [rule_cover(ctx), rule_order(ctx), rule_wrapper(ctx), rule_focus_setter(ctx), rule_slice_triple(ctx), rule_slice_norm(ctx), rule_norm_simultaneous(ctx), rule_index_slice_idiom(ctx)]
+    return [rule_cover(ctx), rule_order(ctx), rule_wrapper(ctx), rule_focus_setter(ctx), rule_slice_triple(ctx), rule_slice_norm(ctx), rule_norm_simultaneous(ctx), rule_index_slice_idiom(ctx), rule_focus_writers(ctx)]
 
 
 _F = "urwid/widget/monitored_list.py"
 MUTANTS = [
+    Mut("reverse-bypasses-focus-setter", _F, "MonitoredFocusList.reverse", "        self.focus = max(0, len(self) - self._focus - 1)", "        self._focus = max(0, len(self) - self._focus - 1)", "WRITER|widget.monitored_list.MonitoredFocusList.reverse"),
     Mut("clear-not-wrapped", _F, "MonitoredList.clear", "    @_call_modified\n    def clear(self)", "    def clear(self)", "COVER|widget.monitored_list.MonitoredList.clear", nth=0),
     Mut("focuslist-remove-not-overridden", _F, None, "    def remove(self, value: _T) -> None:\n        \"\"\"", "    def _remove_unused(self, value: _T) -> None:\n        \"\"\"", "COVER|widget.monitored_list.MonitoredFocusList"),
     Mut("insert-focus-before-call", _F, "MonitoredFocusList.insert", "        super().insert(index, item)\n        self.focus = focus", "        self._focus = focus\n        super().insert(index, item)", "ORDER|widget.monitored_list.MonitoredFocusList.insert"),
